@@ -80,6 +80,63 @@ def run_search(gen, arrivals, remote_host=None):
     return out
 
 
+def run_searches(gen, rounds, remote_host=None):
+    """several searches in a row on ONE discoverer object (an application that looks for consoles again later); rounds: [arrivals, ...]
+    -> [dict as run_search, ...]"""
+    import pyairtouch.comms.discovery as D
+    mod = __import__("pyairtouch.at%d.comms.discovery" % gen, fromlist=["x"])
+    loop = vloop.VLoop()
+    net = vloop.Net(loop)
+    loop.net = net
+    real_socket = D.socket.socket
+    D.socket.socket = _FakeSocket
+    outs = []
+
+    async def main():
+        disc = D.AirTouchDiscoverer(mod.CONFIG, remote_host=remote_host)
+        for arrivals in rounds:
+            out = {}
+            n_udp = len(net.udp)
+            t0 = loop.time()
+            task = loop.create_task(disc.search())
+            await asyncio.sleep(0)
+
+            def deliver(data, n_udp=n_udp):
+                if len(net.udp) > n_udp:
+                    tr = net.udp[-1]
+                    if not tr.closed:
+                        try:
+                            tr.proto.datagram_received(data, ("192.168.1.5", mod.PORT))
+                        except Exception as e:  # noqa: BLE001
+                            loop.call_exception_handler({"message": "datagram_received failed", "exception": e})
+            for t, data in arrivals:
+                loop.call_at(t0 + t * TICK, deliver, data)
+            res = await task
+            out["ret"] = ticks(loop.time() - t0)
+            out["responses"] = res
+            sent = net.udp[-1].sent if len(net.udp) > n_udp else []
+            out["sent"] = [ticks(t - t0) for (t, d, a) in sent]
+            out["data"] = [d for (t, d, a) in sent]
+            out["dest"] = [a for (t, d, a) in sent]
+            out["closed"] = all(tr.closed for tr in net.udp)
+            await asyncio.sleep(40 * TICK)
+            out["pending"] = len([t for t in asyncio.all_tasks(loop) if t is not asyncio.current_task() and not t.done()])
+            outs.append(out)
+
+    asyncio.set_event_loop(loop)
+    try:
+        with warnings.catch_warnings():
+            warnings.simplefilter("ignore")
+            loop.run_until_complete(main())
+    finally:
+        D.socket.socket = real_socket
+        asyncio.set_event_loop(None)
+        for o in outs:
+            o["unhandled"] = len(loop.unhandled)
+        loop.close()
+    return outs
+
+
 def run_factory(arrivals4, arrivals5, remote_host=None):
     """factory.discover() with both discoverers; -> list of (model, host, port, id, name, serial)"""
     import pyairtouch.comms.discovery as D
